@@ -1,13 +1,160 @@
-//! C03 — see props/sweep.rs (shared compile-pipeline sweep) for the corpus and the judge.
+//! C03 — see props/sweep.rs (shared compile-pipeline sweep) for the corpus and the judge. This file adds the
+//! *small stack* leg: the scaling families at large sizes are pushed through lex, parse and build in a child
+//! process on a thread with a 2 MiB stack (the default of a spawned Rust thread). The sweep's own workers have
+//! 64 MiB stacks, so recursion that grows with the input length would never show there; a stack overflow aborts
+//! the process and cannot be caught, hence the child process and its exit status.
 
+use crate::corpus;
 use crate::props::sweep::{run as sweep, Which};
 use crate::run::{Acc, Ctx};
+use crate::store::{Basic, Simple};
+use crate::util::Json;
+
+/// entry point of the child process: `gmon pipe2m <family index> <n>`; prints one line
+pub fn pipe_child(args: &[String]) {
+    let (fam, n) = (args[0].parse::<usize>().unwrap_or(0), args[1].parse::<usize>().unwrap_or(1));
+    let h = std::thread::Builder::new()
+        .stack_size(2 << 20)
+        .spawn(move || {
+            let src = corpus::family(fam, n);
+            let t0 = std::time::Instant::now();
+            let timing = std::env::var("GMON_PIPE_TIMING").is_ok();
+            let r = crate::util::guarded(|| {
+                let toks = match garnish_lang_compiler::lex::lex(&src) {
+                    Ok(t) => t,
+                    Err(_) => return "lex-err",
+                };
+                if timing {
+                    eprintln!("lexed {:?}", t0.elapsed());
+                }
+                let parsed = match garnish_lang_compiler::parse::parse(&toks) {
+                    Ok(p) => p,
+                    Err(_) => return "parse-err",
+                };
+                if timing {
+                    eprintln!("parsed {:?}", t0.elapsed());
+                }
+                let mut s = <Simple as crate::store::Store>::fresh();
+                let a = garnish_lang_compiler::build::build(parsed.get_root(), parsed.get_nodes().clone(), &mut s).is_ok();
+                if timing {
+                    eprintln!("built simple {:?}", t0.elapsed());
+                }
+                // doubling growth: the default of +10 cells per reallocation makes a build of this size quadratic (minutes)
+                let mut b: Basic = garnish_lang_simple_data::BasicGarnishData::verif_new_with_growth(1024, true, 2, garnish_lang_simple_data::NoOpCompanion::new()).expect("verif_new_with_growth");
+                let c = garnish_lang_compiler::build::build(parsed.get_root(), parsed.get_nodes().clone(), &mut b).is_ok();
+                if timing {
+                    eprintln!("built basic {:?}", t0.elapsed());
+                }
+                if a && c { "built" } else { "build-err" }
+            });
+            match r {
+                Ok(x) => format!("ok: {}", x),
+                Err((m, l)) => format!("panic: {} | {}", crate::util::panic_site(&l), m.chars().take(100).collect::<String>()),
+            }
+        })
+        .expect("spawn");
+    match h.join() {
+        Ok(line) => println!("PIPE {}", line),
+        Err(_) => println!("PIPE panic: harness | thread panicked"),
+    }
+}
 
 pub fn run(ctx: &Ctx) -> (Acc, String, bool) {
-    sweep(ctx, Which::C03)
+    let (mut acc, rule, ex) = sweep(ctx, Which::C03);
+    let sizes: Vec<usize> = if ctx.quick() { vec![20_000, 100_000] } else { vec![20_000, 100_000, 400_000, 1_500_000] };
+    let limit = std::time::Duration::from_secs(ctx.pick(20, 300));
+    let exe = std::env::current_exe().expect("current_exe");
+    let mut cases: Vec<(usize, usize)> = vec![];
+    for f in 0..corpus::FAMILIES.len() {
+        for n in &sizes {
+            // families with one build root per repetition cost quadratic time in build; long-number is capped by its own rule
+            let n = if matches!(corpus::FAMILIES[f], "else-chain" | "nested-expressions" | "suffix-chain") { (*n).min(4096) } else { *n };
+            if !cases.contains(&(f, n)) {
+                cases.push((f, n));
+            }
+        }
+    }
+    let results: Vec<(usize, String)> = {
+        let next = std::sync::atomic::AtomicUsize::new(0);
+        let out = std::sync::Mutex::new(vec![]);
+        std::thread::scope(|s| {
+            for _ in 0..ctx.threads.max(1) {
+                s.spawn(|| loop {
+                    let i = next.fetch_add(1, std::sync::atomic::Ordering::SeqCst);
+                    if i >= cases.len() {
+                        break;
+                    }
+                    let (f, n) = cases[i];
+                    let r = std::process::Command::new(&exe)
+                        .args(["pipe2m", &f.to_string(), &n.to_string()])
+                        .stdout(std::process::Stdio::piped())
+                        .stderr(std::process::Stdio::piped())
+                        .spawn()
+                        .and_then(|mut ch| {
+                            let t0 = std::time::Instant::now();
+                            loop {
+                                if ch.try_wait()?.is_some() {
+                                    return ch.wait_with_output().map(Some);
+                                }
+                                if t0.elapsed() > limit {
+                                    let _ = ch.kill();
+                                    let _ = ch.wait();
+                                    return Ok(None);
+                                }
+                                std::thread::sleep(std::time::Duration::from_millis(5));
+                            }
+                        });
+                    let line = match r {
+                        Err(e) => format!("inconclusive: could not start child: {}", e),
+                        Ok(None) => "slow: stopped by the per-case wall-clock limit".to_string(),
+                        Ok(Some(o)) => {
+                            let so = String::from_utf8_lossy(&o.stdout);
+                            let se = String::from_utf8_lossy(&o.stderr);
+                            match so.lines().find(|l| l.starts_with("PIPE ")) {
+                                Some(l) => l[5..].to_string(),
+                                None => {
+                                    use std::os::unix::process::ExitStatusExt;
+                                    if se.contains("overflowed its stack") {
+                                        "abort: stack overflow".to_string()
+                                    } else if se.contains("memory allocation") {
+                                        "abort: allocation failure".to_string()
+                                    } else {
+                                        format!("abort: signal {:?} code {:?}", o.status.signal(), o.status.code())
+                                    }
+                                }
+                            }
+                        }
+                    };
+                    out.lock().unwrap().push((i, line));
+                });
+            }
+        });
+        out.into_inner().unwrap()
+    };
+    for (i, line) in results {
+        let (f, n) = cases[i];
+        acc.evals += 1;
+        acc.count("small_stack_cases");
+        acc.count(&format!("small_stack_{}", line.split(':').next().unwrap_or("").replace('-', "_")));
+        acc.max("small_stack_max_repetitions", n as u64);
+        if line.starts_with("panic") || line.starts_with("abort") {
+            acc.violation(
+                format!("small-stack|{}|{}", line.split('|').next().unwrap_or("").trim(), corpus::FAMILIES[f]),
+                format!("lex / parse / build of family {} x {} on a 2 MiB stack: {}", corpus::FAMILIES[f], n, line),
+                Json::obj().with("family", Json::s(corpus::FAMILIES[f])).with("repetitions", Json::i(n as i64)),
+            );
+        }
+    }
+    let rule = format!(
+        "{} Small stack: the {} scaling families at {:?} repetitions (quadratic ones capped at 4096) through lex, parse and build into both stores in a child process on a 2 MiB thread stack; a panic or an abort (stack overflow) is a violation, a child stopped by its wall-clock limit is counted as slow and not judged.",
+        rule,
+        corpus::FAMILIES.len(),
+        sizes
+    );
+    (acc, rule, ex)
 }
 
 pub const ASSUMPTIONS: &[&str] = &[
     "polynomial time is decided on logical steps (verif_hooks tick counters) against the fixed bound 64*(n+4)^3 per stage, instructions <= 16*(n+4), data <= 64*(n+4)+4*literal characters, for an n-token input",
-    "stack overflow or allocation failure would abort the worker; the driver re-runs single-threaded to name the in-flight case",
+    "stack overflow or allocation failure would abort the worker; the driver re-runs single-threaded to name the in-flight case; the scaling families run once more on a 2 MiB stack in child processes",
 ];
